@@ -276,11 +276,11 @@ theorem okM_tablerowCols (P : Prims) (L : List Nat) (tr : Bool) (cols : Option E
     cases cv <;> exact okM_pure _ True.intro
   · exact okM_pure _ True.intro
 
-theorem okM_loopRun (P : Prims) (path : Bytes) (L : List Nat) (line : Nat) (hl : line ∈ L)
+theorem okM_loopRun {budget : Int} (P : Prims) (path : Bytes) (L : List Nat) (line : Nat) (hl : line ∈ L)
     (tr : Bool) (var : Bytes) (e : Expr) (mods : LoopMods)
     {bodyM : M Status} (hb : PostMOk (EInner L) (EStatus L) bodyM) (tooMany : Bool) (elseM : Option (M Status))
     (he : ∀ m, elseM = some m → PostMOk (EInner L) (EStatus L) m) :
-    PostMOk (EOuter L) (EStatus L) (loopRun P path ⟨line, true⟩ tr var e mods bodyM tooMany elseM) := by
+    PostMOk (EOuter L) (EStatus L) (loopRun budget P path ⟨line, true⟩ tr var e mods bodyM tooMany elseM) := by
   unfold loopRun
   refine okM_wrapAt path L line hl (okM_bind okM_getEnv (fun env _ => okM_bind (okM_ofRes L _) (fun v _ =>
     okM_bind (okM_ofRes L _) (fun items0 _ => okM_bind (okM_intModifier P L _ line hl) (fun off _ =>
